@@ -5,7 +5,7 @@ from fractions import Fraction
 import numpy as np
 
 import pykoop
-from .. import core, pipes
+from .. import core, pipes, structural as st
 
 THEOREMS = ['Pk.C06.C06_gap', 'Pk.C06.C06_normal_eq_optimal', 'Pk.C06.C06_scaling', 'Pk.C06.C06_unique',
             'Pk.C06.C06_normal_unique', 'Pk.C06.C06_recovery', 'Pk.C06.C06_svd_formula',
@@ -94,7 +94,7 @@ def oracle_recovery(rng):
         for k in range(n - 1):
             x[k + 1] = A @ x[k] + B @ u[k]
         blocks.append((l, np.hstack((x, u))))
-    X = pykoop.combine_episodes(blocks, episode_feature=ep) if ep else blocks[0][1]
+    X = st.ref_combine(blocks, ep) if ep else blocks[0][1]
     Xu, Xs = pykoop.shift_episodes(X, n_inputs=nu, episode_feature=ep)
     e = 1 if ep else 0
     Psi = Xu[:, e:].T
